@@ -406,7 +406,7 @@ func (m *Machine) violation(label, kind, msg string) {
 		v.Sig += "/" + strings.Join(tags, ",")
 	}
 	if m.crashed {
-		v.FS = m.fs.snapshot(mo)
+		v.FS = m.crashFS().snapshot(mo)
 	}
 	m.res.Violation = v
 }
